@@ -30,11 +30,11 @@ type c11Case struct {
 
 // algInfo is what a decode function returned, reduced to observable facts.
 type algInfo struct {
-	ok       bool
-	id       uint16
-	keyLen   int
-	outLen   int // -1 if not applicable
-	needESN  bool
+	ok      bool
+	id      uint16
+	keyLen  int
+	outLen  int // -1 if not applicable
+	needESN bool
 }
 
 type decodeFn struct {
@@ -288,7 +288,11 @@ func c11AttrClass(t ref.Transform) string {
 func c11AttrClasses(t uint8, id uint16, thorough bool) []ref.Transform {
 	base := ref.Transform{Type: t, ID: id}
 	out := []ref.Transform{base}
-	tvv := func(at, av uint16) ref.Transform { x := base; x.HasAttr, x.TV, x.AType, x.AValue = true, true, at, av; return x }
+	tvv := func(at, av uint16) ref.Transform {
+		x := base
+		x.HasAttr, x.TV, x.AType, x.AValue = true, true, at, av
+		return x
+	}
 	for _, v := range []uint16{0, 1, 64, 127, 128, 129, 191, 192, 193, 255, 256, 257, 512, 0xffff} {
 		out = append(out, tvv(14, v))
 	}
